@@ -83,6 +83,10 @@ type XferOpt struct {
 	// ever writing, next to the ones of the plan (same client, same underlay
 	// when multiplexing is on).
 	Unused int
+	// Brief: after BriefAfter the application opens one more proxy connection
+	// on the same client, sends a few bytes and closes it at once.
+	Brief      int
+	BriefAfter time.Duration
 }
 
 type liveSess struct {
@@ -259,6 +263,18 @@ func runTransfer(e *Env, cm *protocol.Mux, plans []*SessPlan, opt XferOpt) ([]*S
 				go func() { defer all.Done(); time.Sleep(30 * time.Millisecond); uc.Close() }()
 			}
 		}
+	}
+	for k := 0; k < opt.Brief; k++ {
+		k := k
+		all.Add(1)
+		go func() {
+			defer all.Done()
+			time.Sleep(opt.BriefAfter + time.Duration(k)*time.Second)
+			if bc, err := dial(cm); err == nil {
+				bc.Write([]byte("brief visit"))
+				bc.Close()
+			}
+		}()
 	}
 	for _, ls := range lives {
 		ls := ls
